@@ -142,16 +142,18 @@ theorem C17_parked_removal_exclusive (s0 : BSt) (h0 : LoggerFresh s0) (ops : Lis
   have h := (FInv_runOps s0 h0.inv ops).1.2.1
   exact ⟨h.noname x hx hal st hst hr, h.excl x hx hal st hst hr⟩
 
-/- Full statement aimed at (not proved): in every reachable state, for every statement `st` of kind `.removal f`
-   in some thread's `accepted` history, `f ∈ s.flags → (s.lgOf st.lg).erased = true` — "`remove_logger_blocking`
-   returns only after the logger is gone". What is missing is the uniqueness of flag numbers across all statements
-   (flush flags and removal flags are drawn from the same counter `nextFlag`), needed to rule out that the flag of a
-   processed Flush request coincides with a pending removal flag. Proved instead: the two places that raise flags
-   raise the right ones — `processLowest` raises exactly the flag of the Flush event it has just popped
+/- The global statement — in every reachable state, for every statement `st` of kind `.removal f` in some thread's
+   `accepted` history, `f ∈ s.flags → (s.lgOf st.lg).erased = true`: "`remove_logger_blocking` returns only after
+   the logger is gone" — is `C17_removal_flag_after_erase` / `C17_remove_blocking_returns_after_erase` in
+   `Props/C17Removal.lean` (it needs the uniqueness of flag numbers across Flush and removal requests,
+   `C06_flag_numbers_unique`, whose file imports this one). The theorem below is the per-clean-up step it was first
+   stated as, kept because it holds for *any* state (no reachability): the two places that raise flags raise the
+   right ones — `processLowest` raises exactly the flag of the Flush event it has just popped
    (`PC.processEvent_flag` + the `raise` leaf of the schedule skeleton), and the logger clean-up raises a recorded
    removal flag only for a name one of whose objects it has erased in that very pass: -/
 
-/-- **The removal flag is raised only after the erase** (`…_partial`, see the comment above): every flag the logger
+/-- **The removal flag is raised only after the erase** (`…_partial`: the step form, superseded by the global
+    `C17_removal_flag_after_erase` of `Props/C17Removal.lean`, see the comment above): every flag the logger
     clean-up adds was recorded (when the removal request was decoded) for a name `g` such that a logger object of
     name `g`, not erased before, is erased after the clean-up — the store to the flag follows the erase and the
     sink pruning in `cleanupLoggers`, so a caller parked in `remove_logger_blocking` (it resumes only when its flag
